@@ -4,16 +4,16 @@ import FV.Model.Alloc
   The refine / optimise loop of `glbfloor` with the allocation model plugged in
   (`tools/glbfloor/optimization.py` 411-480 on top of `frame/allocation/allocation.py`):
 
-  * `refine`          := `allocation.refine(threshold)`            = `FV.refine env st a thr 1`  (default `levels = 1`)
-  * `must_be_refined` := `allocation.must_be_refined(threshold)`   = `FV.mustBeRefined a thr`
-  * `Allocation(allocation_list)` in `extract_solution`            = `FV.mkAllocation env st …` (the whole constructor)
+  * `refine`          := `allocation.refine(threshold)`            = `FV.Alloc.refine env st a thr 1`  (default `levels = 1`)
+  * `must_be_refined` := `allocation.must_be_refined(threshold)`   = `FV.Alloc.mustBeRefined a thr`
+  * `Allocation(allocation_list)` in `extract_solution`            = `FV.Alloc.mkAllocation env st …` (the whole constructor)
 
   `FV/Model/Alloc.lean` models the allocation code with the repairs `fixes/C02_*.diff`, `fixes/C12_*.diff` applied.
-  The only parameter left is the solver (`solve`).  Adapter: `Glb.RectAlloc` and `FV.Cell` are the same record
+  The only parameter left is the solver (`solve`).  Adapter: `Glb.RectAlloc` and `FV.Alloc.Cell` are the same record
   (rectangle, ratios, depth) declared twice; `toCell` / `ofCell` convert, both round trips are `rfl`.
 -/
 namespace FV.Glb
-open FV
+open FV FV.Alloc
 
 /-- adapter `RectAlloc → Cell`. -/
 def toCell {α : Type} (ra : RectAlloc α) : Cell α := ⟨ra.rect, ra.alloc, ra.depth⟩
